@@ -189,12 +189,12 @@ def require_coverage(r, actions):
         raise ToolError("vacuous model run: actions never taken: %s" % missing)
 
 
-def validate_trace(module, cfg, trace_path, timeout=600, env_extra=None, name=None):
+def validate_trace(module, cfg, trace_path, timeout=600, env_extra=None, name=None, dfs=True):
     """impl -> spec: replay an NDJSON trace through Trace<X>.tla. Returns (accepted, info)."""
     env = {"TRACE": trace_path}
     if env_extra:
         env.update(env_extra)
-    r = run_tlc(module, cfg, workers=1, timeout=timeout, env_extra=env, dfs=True, xmx="4g",
+    r = run_tlc(module, cfg, workers=1, timeout=timeout, env_extra=env, dfs=dfs, xmx="4g",
                 name=name or ("trace_" + module))
     accepted = r.ok and "TRACE-ACCEPTED" in r.output
     info = ""
